@@ -119,8 +119,10 @@ func (db *DB) delete(ctx context.Context, tr telem.TimeRange) error {
 //     case, we would use the lower distance approximation instead. For example:
 //     if the index is 11 13 15 17 19, but the domain starts at 9 * Second + 1,
 //     the start of the domain is inexact. With a target of 17, we would use the
-//     lower offset 3 as the delete offset, and use the lower timestamp approximation
-//     of 15 * Second + 1.
+//     lower offset 3 as the delete offset. As in case 1, the target timestamp is a
+//     sample and does not need to be snapped: the kept domain ends at 17 * Second for
+//     this channel as well as for its index, whether or not their domain starts are
+//     exact.
 //
 //   - Case 4: Start of domain is inexact, target is inexact
 //     Again use the example of 11 13 15 17 19 with the domain starting at
@@ -180,16 +182,8 @@ func (db *DB) calculateStartOffset(
 			// If start is inexact, we must use the lower approximation. (Note that the
 			// start is only inexact because of domain cutoff).
 			sampleOffset = approxDist.Lower
-			approxStamp, err = db.index().Stamp(
-				ctx,
-				domainStart,
-				sampleOffset-1,
-				index.MustBeContinuous,
-			)
-			if err != nil {
-				return 0, 0, err
-			}
-			ts = approxStamp.Lower + 1
+			// The target is itself a sample, so, as in case 1, the timestamp does not
+			// need to be snapped: the kept domain ends at the first deleted sample.
 		} else {
 			approxStamp, err = db.index().Stamp(
 				ctx,
